@@ -537,4 +537,141 @@ theorem readAll_oi (cfg : Cfg) : ∀ (rs : List Read), OI (fun s => readAll cfg 
     refine oi_congr (g := fun s => readAll cfg rest (readOne cfg s r)) (fun s => rfl) ?_
     exact oi_bind (readOne_oi cfg r) (readAll_oi cfg rest)
 
+/-! ## the periodic section and one round -/
+
+theorem OI.congr {f g : State → State} (hg : OI g) (h : ∀ s, f s = g s) : OI f := oi_congr h hg
+
+/-- an update of fields other than the log by values that do not depend on the log -/
+theorem oi_set (k : State → State) (ho : ∀ s, (k s).out = s.out) (hk : ∀ s o, k (setOut s o) = setOut (k s) o) : OI k :=
+  oi_same k ho hk
+
+theorem sendTiming_oi (cfg : Cfg) : OI (fun s => sendTiming cfg s) := by
+  have hA : ∀ fr : Frame, OI (fun s : State => fwdTop cfg ({ s with counts := [], inTraffic := true } : State) fr) := fun fr =>
+    oi_bind (f := fun s : State => ({ s with counts := [], inTraffic := true } : State)) (g := fun s => fwdTop cfg s fr)
+      (oi_set _ (fun _ => rfl) (fun _ _ => rfl)) (fwdTop_oi cfg fr)
+  have hB : OI (fun s : State => fwdTop cfg ({ s with counts := [], inTraffic := true } : State)
+      (mgrFrame cfg.mtTiming 0 cfg.szTiming (Body.timing (timingEntries cfg s.counts) (pidEntries s.mods)))) :=
+    oi_param (fun s => mgrFrame cfg.mtTiming 0 cfg.szTiming (Body.timing (timingEntries cfg s.counts) (pidEntries s.mods)))
+      (fun _ _ => rfl) (F := fun fr s => fwdTop cfg ({ s with counts := [], inTraffic := true } : State) fr) hA
+  have hC : OI (fun s2 : State => ({ s2 with inTraffic := false, hist := Mark.timingTick :: s2.hist } : State)) :=
+    oi_set _ (fun _ => rfl) (fun _ _ => rfl)
+  exact (oi_bind hB hC).congr (fun s => rfl)
+
+theorem foldl_fwd_oi (cfg : Cfg) (fs : List Frame) : OI (fun s => fs.foldl (fwdTop cfg) s) :=
+  oi_foldl (fwdTop cfg) (fun g => fwdTop_oi cfg g) fs
+
+theorem sendTraffic_oi (cfg : Cfg) : OI (fun s => sendTraffic cfg s) := by
+  have hA : OI (fun s : State => logAt cfg (fwdTop cfg) 10 ({ s with inTraffic := true } : State)) :=
+    oi_bind (f := fun s : State => ({ s with inTraffic := true } : State)) (g := fun s => logAt cfg (fwdTop cfg) 10 s)
+      (oi_set _ (fun _ => rfl) (fun _ _ => rfl)) (logTop_oi cfg 10)
+  have hB : OI (fun s2 : State => (trafficFrames cfg s2.trafficSeq s2.traffic).foldl (fwdTop cfg) s2) :=
+    oi_param (fun s2 => trafficFrames cfg s2.trafficSeq s2.traffic) (fun _ _ => rfl)
+      (F := fun fs s2 => fs.foldl (fwdTop cfg) s2) (fun fs => foldl_fwd_oi cfg fs)
+  have hC : OI (fun s3 : State => ({ s3 with inTraffic := false, traffic := [], tTraffic := s3.now, trafficSeq := s3.trafficSeq + 1, hist := Mark.trafficTick :: s3.hist } : State)) :=
+    oi_set _ (fun _ => rfl) (fun _ _ => rfl)
+  exact (oi_bind (oi_bind hA hB) hC).congr (fun s => rfl)
+
+theorem infoAll_oi (cfg : Cfg) : ∀ (ms : List Module), OI (fun s => infoAll cfg ms s)
+  | [] => oi_id
+  | m :: rest => by
+    have hA : OI (fun s : State => infoOf cfg s ((s.find m.uid).getD m)) :=
+      oi_param (fun s => (s.find m.uid).getD m) (fun _ _ => rfl) (F := fun x s => infoOf cfg s x) (fun x => infoOf_oi cfg x)
+    exact (oi_bind hA (infoAll_oi cfg rest)).congr (fun s => rfl)
+
+theorem sendActive_oi (cfg : Cfg) : OI (fun s => sendActive cfg s) := by
+  -- everything after the log line, with the snapshot `snap` as a parameter
+  have hRest : ∀ snap : List Module, OI (fun s1 : State =>
+      ({ (fwdTop cfg (infoAll cfg snap s1) (mgrFrame cfg.mtActive 0 cfg.szActive
+          (Body.active (((infoAll cfg snap s1).mods.length : Int) - 1) (trimZeros ((snap.take cfg.maxActive).map (·.modId)))
+            (trimZeros ((snap.take cfg.maxActive).map (·.pid)))))) with
+         tInfo := (fwdTop cfg (infoAll cfg snap s1) (mgrFrame cfg.mtActive 0 cfg.szActive
+          (Body.active (((infoAll cfg snap s1).mods.length : Int) - 1) (trimZeros ((snap.take cfg.maxActive).map (·.modId)))
+            (trimZeros ((snap.take cfg.maxActive).map (·.pid)))))).now } : State)) := by
+    intro snap
+    have hF : OI (fun s3 : State => fwdTop cfg s3 (mgrFrame cfg.mtActive 0 cfg.szActive
+        (Body.active ((s3.mods.length : Int) - 1) (trimZeros ((snap.take cfg.maxActive).map (·.modId)))
+          (trimZeros ((snap.take cfg.maxActive).map (·.pid)))))) :=
+      oi_param (fun s3 => mgrFrame cfg.mtActive 0 cfg.szActive
+        (Body.active ((s3.mods.length : Int) - 1) (trimZeros ((snap.take cfg.maxActive).map (·.modId)))
+          (trimZeros ((snap.take cfg.maxActive).map (·.pid))))) (fun _ _ => rfl)
+        (F := fun fr s3 => fwdTop cfg s3 fr) (fun fr => fwdTop_oi cfg fr)
+    have hT : OI (fun s2 : State => ({ s2 with tInfo := s2.now } : State)) := oi_set _ (fun _ => rfl) (fun _ _ => rfl)
+    exact (oi_bind (oi_bind (infoAll_oi cfg snap) hF) hT).congr (fun s => rfl)
+  have hSnap := oi_param (fun s1 : State => s1.mods) (fun _ _ => rfl) (F := fun snap s1 =>
+      ({ (fwdTop cfg (infoAll cfg snap s1) (mgrFrame cfg.mtActive 0 cfg.szActive
+          (Body.active (((infoAll cfg snap s1).mods.length : Int) - 1) (trimZeros ((snap.take cfg.maxActive).map (·.modId)))
+            (trimZeros ((snap.take cfg.maxActive).map (·.pid)))))) with
+         tInfo := (fwdTop cfg (infoAll cfg snap s1) (mgrFrame cfg.mtActive 0 cfg.szActive
+          (Body.active (((infoAll cfg snap s1).mods.length : Int) - 1) (trimZeros ((snap.take cfg.maxActive).map (·.modId)))
+            (trimZeros ((snap.take cfg.maxActive).map (·.pid)))))).now } : State)) hRest
+  exact (oi_bind (logTop_oi cfg 10) hSnap).congr (fun s => rfl)
+
+theorem ticks_oi (cfg : Cfg) : OI (fun s => ticks cfg s) := by
+  have hT : OI (fun s : State => if cfg.timing && decide (s.now - s.tTiming > cfg.pTiming) then
+      ({ sendTiming cfg s with tTiming := s.now } : State) else s) := by
+    refine oi_ite (fun s => cfg.timing && decide (s.now - s.tTiming > cfg.pTiming)) (fun _ _ => rfl) ?_ oi_id
+    have h1 : ∀ n : Nat, OI (fun s : State => ({ sendTiming cfg s with tTiming := n } : State)) := fun n =>
+      (oi_bind (sendTiming_oi cfg) (g := fun x : State => ({ x with tTiming := n } : State))
+        (oi_set _ (fun _ => rfl) (fun _ _ => rfl))).congr (fun s => rfl)
+    exact oi_param (fun s => s.now) (fun _ _ => rfl) (F := fun n s => ({ sendTiming cfg s with tTiming := n } : State)) h1
+  have hR : OI (fun s1 : State => if s1.now - s1.tTraffic > cfg.pTraffic then sendTraffic cfg s1 else s1) :=
+    oi_iteP (fun s1 => s1.now - s1.tTraffic > cfg.pTraffic) (fun _ _ => Iff.rfl) (sendTraffic_oi cfg) oi_id
+  have hI : OI (fun s2 : State => if s2.now - s2.tInfo > cfg.pInfo then sendActive cfg s2 else s2) :=
+    oi_iteP (fun s2 => s2.now - s2.tInfo > cfg.pInfo) (fun _ _ => Iff.rfl) (sendActive_oi cfg) oi_id
+  exact (oi_bind (oi_bind hT hR) hI).congr (fun s => rfl)
+
+theorem envStep_oi (r : Round) : OI (fun s => envStep s r) := oi_set _ (fun _ => rfl) (fun _ _ => rfl)
+
+theorem accept_oi (cfg : Cfg) : OI (fun s => acceptStep cfg s) := by
+  have hK : OI (fun s1 : State =>
+      ({ s1 with nextUid := s1.nextUid + 1, mods := s1.mods ++ [{ uid := s1.nextUid + 1 }] } : State)) :=
+    oi_set _ (fun _ => rfl) (fun _ _ => rfl)
+  exact (oi_bind (logTop_oi cfg 20) hK).congr (fun s => rfl)
+
+theorem ioStep_oi (cfg : Cfg) (acc : Bool) (w : List Nat) (reads : List Read) : OI (fun s => ioStep cfg s acc w reads) := by
+  have hA : OI (fun s : State => if acc then acceptStep cfg s else s) := by
+    cases acc with
+    | true => simp only [if_true]; exact accept_oi cfg
+    | false => simp only [Bool.false_eq_true, if_false]; exact oi_id
+  have hW : OI (fun s2 : State => ({ s2 with wlist := if reads.isEmpty then [] else w.filter (fun x => (s2.mods.map (·.uid)).contains x) } : State)) :=
+    oi_set _ (fun _ => rfl) (fun _ _ => rfl)
+  have hAll := oi_bind (oi_bind hA hW) (readAll_oi cfg reads)
+  cases hc : (acc || !reads.isEmpty) with
+  | false => exact oi_id.congr (fun s => by unfold ioStep; simp only [hc, Bool.false_eq_true, if_false])
+  | true => exact hAll.congr (fun s => by unfold ioStep; simp only [hc, if_true])
+
+theorem step_oi (cfg : Cfg) (r : Round) : OI (fun s => step cfg s r) := by
+  have hmain : ∀ reads, OI (fun s => ticks cfg (ioStep cfg (envStep s r) r.accept r.writable reads)) := fun reads =>
+    oi_bind (oi_bind (envStep_oi r) (ioStep_oi cfg r.accept r.writable reads)) (ticks_oi cfg)
+  have hf : ∀ (s : State) (o : List Ev) (u : Nat), (envStep (setOut s o) r).find u = (envStep s r).find u := fun _ _ _ => rfl
+  intro s o
+  show ∃ ext, (step cfg s r).out = s.out ++ ext ∧ step cfg (setOut s o) r = setOut (step cfg s r) (o ++ ext)
+  have hc : (setOut s o).crashed = s.crashed := rfl
+  cases hcr : s.crashed.isSome with
+  | true =>
+    have e1 : step cfg s r = s := by unfold step; simp only [hcr, if_true]
+    have e2 : step cfg (setOut s o) r = setOut s o := by unfold step; simp only [hc, hcr, if_true]
+    rw [e1, e2]
+    exact ⟨[], by simp, by simp⟩
+  | false =>
+    have e1 : step cfg s r = ticks cfg (ioStep cfg (envStep s r) r.accept r.writable
+        (r.reads.filter (fun rd => ((envStep s r).find rd.uid).isSome))) := by
+      unfold step; simp only [hcr, Bool.false_eq_true, if_false]
+    have e2 : step cfg (setOut s o) r = ticks cfg (ioStep cfg (envStep (setOut s o) r) r.accept r.writable
+        (r.reads.filter (fun rd => ((envStep s r).find rd.uid).isSome))) := by
+      unfold step; simp only [hc, hcr, Bool.false_eq_true, if_false, hf]
+    rw [e1, e2]
+    exact hmain _ s o
+
+/-- **A round appends the same events whatever the log holds**: running it on the state with the log emptied yields exactly
+    what it appends to the cumulative log -/
+theorem step_reset (cfg : Cfg) (s : State) (r : Round) :
+    step cfg { s with out := [] } r = setOut (step cfg s r) ((step cfg s r).out.drop s.out.length) := by
+  obtain ⟨e, h1, h2⟩ := step_oi cfg r s []
+  dsimp only at h1 h2
+  have hd : (step cfg s r).out.drop s.out.length = e := by rw [h1, List.drop_left]
+  rw [hd]
+  have : ({ s with out := [] } : State) = setOut s [] := rfl
+  rw [this, h2]; simp
+
 end Pyrtma.Mgr
